@@ -14,6 +14,8 @@ Tie (correspondence, three streams, all compared inside Coq by vm_compute):
             modules, and histories of requests, rewrites (new bytes, new size, controlled mtime), removals and
             conditional requests (current / stale / foreign validators, malformed and out-of-range dates);
             every step is compared with Cond.step on the store observed before the step.
+Finding F18 (year > 9999 in If-Modified-Since answered 500) is repaired in /repo; model and oracle describe the repaired
+code: such dates are ignored like any other malformed value (signature ims-date-out-of-range-500 if it regresses).
 Oracle (independent of the model): the property statement on status and headers of every app response.
 """
 import calendar
@@ -365,12 +367,12 @@ def run_date_stream(ctx):
     for s in texts:
         try:
             r = parse_httpdate(s)
-            obs = 'PNone' if r is None else '(PSome %s)' % zlit(r)
+            obs = '(Some PNone)' if r is None else '(Some (PSome %s))' % zlit(r)
             if r is not None and not isinstance(r, int):
-                obs = '(PSome (-777))'
+                obs = None
         except Exception as e:  # noqa
             r = 'raised ' + type(e).__name__
-            obs = 'PRaise'
+            obs = None            # parse_httpdate must not raise (repair of F18); no model value matches
         try:
             pd = parsedate(s)
         except Exception:
@@ -380,10 +382,11 @@ def run_date_stream(ctx):
         d = {'text': s, 'parse_httpdate': r, 'parsedate': None if pd is None else list(pd[:6])}
         ctx.case(('date', s), pd is not None, d)
         ctx.count('date:' + ('none' if r is None else 'raise' if isinstance(r, str) else 'value'))
-        terms.append('(%s, %s)' % (ims_lit(s), obs))
+        terms.append('(%s, %s)' % (ims_lit(s), obs or 'None'))
         descr.append(d)
-    ctx.corr_check('httpdate', 'Cond', 'imsval * parsed', terms,
-                   "fun c => parsed_eqb (parse_httpdate (fst c)) (snd c)", lambda i: descr[i])
+    ctx.corr_check('httpdate', 'Cond', 'imsval * option parsed', terms,
+                   "fun c => match snd c with Some p => parsed_eqb (parse_httpdate (fst c)) p | None => false end",
+                   lambda i: descr[i])
     # format_httpdate prints floor(ts)
     terms, descr = [], []
     for _ in range(ctx.n(150, 1500)):
@@ -758,8 +761,9 @@ class History:
                 elif bad:
                     self.fail(where + 'uncacheable-public-headers', 'uncached error fill image: ' + '; '.join(bad), step)
             elif mode == 'ok':
-                if status >= 400 and not (ims_class == 'oor'):
-                    self.fail(where + 'fresh-tile-error', 'fresh tile answered %d' % status, step)
+                if status >= 400:
+                    self.fail('ims-date-out-of-range-500' if ims_class == 'oor' else where + 'fresh-tile-error',
+                              'fresh tile answered %d (If-Modified-Since %r)' % (status, ims), step)
                 if status == 304 and after[key] is not None:
                     size = after[key][1]
                     fresh_etag = md5hex(str(float(now)) + str(size))
